@@ -1009,3 +1009,107 @@ Proof.
     + split; [reflexivity|]. unfold widens, in_ity in *. lia.
     + destruct (in_ity dst v); auto.
 Qed.
+(* ------------------------------------------------------------------ the finding class is inhabited *)
+Definition mkfrag (phys : N) (dv : option (list N)) (m : option ranges) : frag :=
+  {| f_phys := phys; f_logical := phys - N.of_nat (length (match dv with Some d => d | None => [] end));
+     f_dv := dv; f_matched := m |}.
+Definition mkopts before after refine idx : opts :=
+  {| o_before := before; o_after := after; o_with_deleted := false; o_has_refine := refine; o_index := idx |}.
+
+(* W1: an un-indexed fragment in front of an indexed one (Exact), LIMIT 1, every row matches *)
+Definition w1_opts := mkopts None (Some (0, 1)) false (Some Exact).
+Definition w1_frs := [mkfrag 2 None None; mkfrag 2 None (Some [(0, 2)])].
+Definition all_true : rowpred := fun _ _ => true.
+(* W2: an AtLeast result that vouches for row 1 only; rows 0 and 1 both match; LIMIT 1 *)
+Definition w2_opts := mkopts None (Some (0, 1)) false (Some AtLeast).
+Definition w2_frs := [mkfrag 2 None (Some [(1, 2)])].
+
+Lemma w_wf_frag phys m : phys < two64 -> match m with Some r => exists lo hi, sorted_in lo hi r | None => True end ->
+  forall o, o_with_deleted o = false -> wf_frag o (mkfrag phys None m).
+Proof.
+  intros Hp Hm o Ho. unfold wf_frag, mkfrag, frag_rows. cbn [f_dv f_phys f_logical f_matched]. rewrite Ho.
+  split; [exact I|]. split; [|split; [exact Hp | exact Hm]].
+  unfold live, live_of, lenN. cbn [f_phys f_dv length existsb negb]. rewrite filter_true, seqN_length. lia.
+Qed.
+
+Lemma w1_wf : wf_frags w1_opts all_true all_true all_true 0 w1_frs.
+Proof.
+  cbn [wf_frags w1_frs]. split; [apply w_wf_frag; [reflexivity | exact I | reflexivity]|]. split; [exact I|].
+  split; [apply w_wf_frag; [reflexivity | exists 0, 2; cbn; lia | reflexivity]|]. split; [|exact I].
+  intros off Hoff. apply filter_In in Hoff as [Hoff _]. apply in_seqN in Hoff. split; [reflexivity|].
+  unfold all_true, in_ranges. cbn [existsb fst snd]. destruct (N.leb_spec 0 off), (N.ltb_spec off 2); try reflexivity; cbn in *; lia.
+Qed.
+Lemma w1_refuted :
+  Known_C16_limit_pushdown_skips_unguaranteed_rows w1_opts all_true w1_frs = true
+  /\ run_scan w1_opts all_true all_true w1_frs = Ok [(1%nat, 0)]
+  /\ reference w1_opts all_true w1_frs = [(0%nat, 0)].
+Proof. vm_compute. auto. Qed.
+
+Lemma w2_wf : wf_frags w2_opts all_true all_true all_true 0 w2_frs.
+Proof.
+  cbn [wf_frags w2_frs]. split; [apply w_wf_frag; [reflexivity | exists 0, 2; cbn; lia | reflexivity]|]. split; [|exact I].
+  intros off Hoff. split; reflexivity.
+Qed.
+Lemma w2_refuted :
+  Known_C16_limit_pushdown_skips_unguaranteed_rows w2_opts all_true w2_frs = true
+  /\ run_scan w2_opts all_true all_true w2_frs = Ok [(0%nat, 1)]
+  /\ reference w2_opts all_true w2_frs = [(0%nat, 0)].
+Proof. vm_compute. auto. Qed.
+
+(* ------------------------------------------------------------------ executable sweep (a test, not the theorem) *)
+(* small universe: 1-2 fragments of 3 physical rows, deletions, every index kind / mask, refine on/off,
+   before/after ranges; predicates as tables.  Checks: guarantee holds and not in the class ->
+   run_scan = reference.  Kept for regression and to show the hypotheses are inhabited by plans of
+   every kind (counts of pushed-down plans below). *)
+Definition sw_frag_choices : list frag :=
+  flat_map (fun dv => map (fun m => mkfrag 3 dv m)
+                          [None; Some []; Some [(0, 1)]; Some [(1, 3)]; Some [(0, 3)]; Some [(0, 1); (2, 3)]])
+           [None; Some [1]; Some [0; 2]].
+Definition sw_tables : list (list N) := [[]; [0]; [2]; [0; 1]; [1; 2]; [0; 1; 2]].
+Definition sw_guarantee_b (o : opts) (idx_t full_t : list (list N)) (refine_t : list (list N)) (frs : list frag) : bool :=
+  forallb (fun iF : nat * frag =>
+    let '(i, f) := iF in
+    match o_index o, f_matched f with
+    | Some k, Some m =>
+        forallb (fun off =>
+          Bool.eqb (pred_of full_t i off)
+                   (pred_of idx_t i off && (if o_has_refine o then pred_of refine_t i off else true))
+          && match k with
+             | Exact => Bool.eqb (in_ranges off m) (pred_of idx_t i off)
+             | AtMost => implb (pred_of idx_t i off) (in_ranges off m)
+             | AtLeast => implb (in_ranges off m) (pred_of idx_t i off)
+             end) (live_offsets o f)
+    | _, _ => true
+    end) (combine (seq 0 (length frs)) frs).
+Definition sw_case (o : opts) (idx_t refine_t : list (list N)) (frs : list frag) : bool * bool :=
+  (* full := indexed AND refine on indexed fragments, = indexed table elsewhere *)
+  let full_t := map (fun iF : nat * frag =>
+                  let '(i, f) := iF in
+                  filter (fun off => pred_of idx_t i off && (if o_has_refine o then pred_of refine_t i off else true))
+                         [0; 1; 2]) (combine (seq 0 (length frs)) frs) in
+  let ok := sw_guarantee_b o idx_t full_t refine_t frs in
+  let known := Known_C16_limit_pushdown_skips_unguaranteed_rows o (pred_of full_t) frs in
+  let agree := outcome_eqb (list_eqb row_eqb) (run_scan o (pred_of refine_t) (pred_of full_t) frs)
+                           (Ok (reference o (pred_of full_t) frs)) in
+  (implb (ok && negb known) agree,
+   ok && negb known && match plan_scan o frs with Ok (_, true) => true | _ => false end).
+Definition sw_all : list (bool * bool) :=
+  flat_map (fun frs =>
+  flat_map (fun idx =>
+  flat_map (fun after =>
+  flat_map (fun before =>
+  flat_map (fun refine =>
+  flat_map (fun it0 =>
+  map (fun it1 => sw_case (mkopts before after refine idx) [it0; it1] [[0; 2]; [1]] frs)
+      (match frs with [_] => [[]] | _ => [[]; [1]; [0; 1; 2]] end))
+      sw_tables)
+      [false; true])
+      [None; Some (1, 4)])
+      [None; Some (0, 1); Some (1, 3); Some (2, 2)])
+      [None; Some Exact; Some AtMost; Some AtLeast])
+      (map (fun f => [f]) sw_frag_choices
+       ++ flat_map (fun f => map (fun g => [f; g]) [mkfrag 3 None None; mkfrag 3 (Some [1]) (Some [(0, 1); (2, 3)])])
+                   sw_frag_choices).
+Example sweep_plan_scan_sound :
+  forallb fst sw_all = true /\ (100 <? N.of_nat (length (filter snd sw_all))) = true.
+Proof. vm_compute. split; reflexivity. Qed.
